@@ -39,6 +39,30 @@ def first_step_wraps_midnight(spec):
     return ts[1].hour < ts[0].hour or ts[1].date() != ts[0].date()
 
 
+def uamiv_read_time_class(spec):
+    """input classes in which the record-based uamiv reader's time
+    arithmetic (hour-valued times, eod=2400 defaults) is known to be wrong:
+      * the begin times of the steps lie on more than one date
+        (__timerecords subtracts with eod=2400), or
+      * the first step ends on a later date than it begins (time_step is
+        computed with eod=2400), or
+      * the file ends on a later date than it starts and the step is an even
+        number of hours (the eod constant is picked by time_step % 2), or
+      * the file ends in a later year than it starts (YYJJJ dates are
+        subtracted as integers).
+    A file that only ENDS at midnight (all begins on one date, odd step) is
+    read correctly and is NOT in the class."""
+    ts = C.instants(spec)
+    b = ts[:-1]
+    if b[0].date() != b[-1].date():
+        return True
+    if ts[1].date() != ts[0].date():
+        return True
+    if ts[-1].year != ts[0].year:
+        return True     # YYJJJ dates are subtracted as integers
+    return ts[-1].date() != ts[0].date() and spec['step_h'] % 2 == 0
+
+
 def single_step(spec):
     return spec.get('nsteps') == 1
 
